@@ -20,12 +20,12 @@ def decTInst (s : String) : TInst :=
 
 def decFn (s : String) : Fn :=
   match s.splitOn ":" with
-  | [nm, np, nd, sf, ds, ti, ge, hb, ic, ut] =>
+  | [nm, np, nd, sf, ds, ti, ge, hb, ic, ut, ci] =>
     { name := decStr nm, nparams := np.toNat!, ndefaults := nd.toNat!, suffix := decOpt sf,
       dsuffix := decList decStr "+" ds, tinst := decList decTInst "+" ti,
-      generics := decList decOpt "+" ge, hasBuf := hb == "1", isCtor := ic == "1", usesT := ut == "1" }
+      generics := decList decOpt "+" ge, hasBuf := hb == "1", isCtor := ic == "1", usesT := ut == "1", cppIf := decOpt ci }
   | _ => { name := [], nparams := 0, ndefaults := 0, suffix := none, dsuffix := [], tinst := [],
-           generics := [], hasBuf := false, isCtor := false, usesT := false }
+           generics := [], hasBuf := false, isCtor := false, usesT := false, cppIf := none }
 
 def decSeg (s : String) : PathSeg :=
   if s.startsWith "c=" then .cls (decStr (s.drop 2).toString)
@@ -116,9 +116,16 @@ def giForce (sc : Scope) (sel : Rec → Bool) (recs : List Rec) (k : Str) : Bool
   | some r => !typeBound sc r && (r.gen == .fortranGeneric || (r.isCtor && !r.templated))
   | none => false
 
+/-- members with the condition in force on their line, through the emission functions -/
+def giConds (kind : String) (ms : List (Str × Option Str)) : List (Str × Option Str) :=
+  if kind == "T" then (typeGenericLines ms).flatMap (fun l => l.2.map (fun b => (b, l.1)))
+  else (interfaceLines ms).2.map (fun l => (l.2, effective (interfaceLines ms).1 l.1))
+
 def giEntry (kind : String) (sc : Scope) (sel : Rec → Bool) (recs : List Rec) (e : Str × List Str) : String :=
   kind ++ "=" ++ encStr e.1 ++ "=" ++ (if giForce sc sel recs e.1 then "1" else "0") ++ "=" ++
-    "+".intercalate (e.2.map encStr)
+    "+".intercalate (e.2.map encStr) ++ "=" ++
+    "+".intercalate ((giConds kind (genericMembersCond sc sel recs e.1)).map
+      fun m => encStr m.1 ++ "@" ++ encOpt m.2)
 
 /-- `gi <wrap> <library> <container>` : generic tables of one container: `M=` module-level
     interfaces, `T=` type-bound generics of the class. -/
